@@ -184,6 +184,10 @@ PROBES: Dict[str, tuple] = {
     'R126': ('def f(tables, out):\n    for name, funcs in tables:\n        def key(role):\n            return [g(role) for g in funcs]\n        out[name] = key\n    return out\n', 1),
     'R127': ('def f(meta):\n    key, value = meta.split(None, 1)\n    return key, value\n', 1),
     'R139': ('def f(items, m):\n    changed = False\n    out = []\n    for a, b in items:\n        if a in m:\n            changed = True\n            a = m[a]\n        else:\n            sub = g(b)\n            changed = sub is not b\n            b = sub\n        out.append((a, b))\n    if not changed:\n        return items\n    return out\n', 1),
+    'R140': ('def f(meta):\n    for key in meta.keys():\n        if key.startswith("error-"):\n            del meta[key]\n    return meta\n', 1),
+    'R141': ('import re\nclass M:\n    def __init__(self, roles):\n        self.roles = roles\n        self._re = re.compile("^({})$".format("|".join(roles)))\n    def __setstate__(self, state):\n        self.__dict__.update(state)\n        self._re = re.compile("|".join(self.roles))\n', 1),
+    'R142': ('import itertools\ndef f(lines):\n    lines = iter(lines)\n    first = next(lines, None)\n    if isinstance(first, bytes):\n        raise TypeError()\n    return itertools.chain([first], lines)\n', 1),
+    'R143': ('from itertools import groupby\ndef f(rel):\n    return {k: list(g) for k, g in groupby(rel, key=lambda t: t[0])}\n', 1),
     'R96': ('def f(a) -> str:\n    if a:\n        return "x"\n', 1),
 }
 
